@@ -36,7 +36,16 @@ type srcFS struct {
 	maxCopies int64
 	failOpen  string // the next Open of this name fails (once)
 	onFail    func(name string) // called when a Read failure is injected
+	noSeek    bool              // handles expose Read, Stat, ReadDir and Close only (a source that cannot seek)
 }
+
+// plainFile hides every optional method of the source handle but ReadDir
+type plainFile struct{ f *srcFile }
+
+func (p plainFile) Read(b []byte) (int, error)                    { return p.f.Read(b) }
+func (p plainFile) Stat() (hackpadfs.FileInfo, error)             { return p.f.Stat() }
+func (p plainFile) Close() error                                  { return p.f.Close() }
+func (p plainFile) ReadDir(n int) ([]hackpadfs.DirEntry, error)   { return p.f.ReadDir(n) }
 
 func newSrcFS(fs hackpadfs.FS) *srcFS {
 	return &srcFS{fs: fs, opens: map[string]*int64{}, reads: map[string]*int64{}, failRead: -1}
@@ -71,6 +80,9 @@ func (s *srcFS) Open(name string) (hackpadfs.File, error) {
 	f, err := s.fs.Open(name)
 	if err != nil {
 		return nil, err
+	}
+	if s.noSeek {
+		return plainFile{&srcFile{f, s, name}}, nil
 	}
 	return &srcFile{f, s, name}, nil
 }
@@ -491,13 +503,14 @@ func runC10(r *Rng, n int, replay string) {
 		pol := retainPolicies[r.Intn(len(retainPolicies))]
 		minimal := r.Intn(2) == 0
 		src := newSrcFS(buildTree(es))
+		src.noSeek = id%4 == 3 // a source whose handles cannot seek: the cache must cope (re-open from its store, or hand out the fresh handle)
 		ref := buildTree(es)
 		_, store := newStore(minimal)
 		cfs, err := cache.NewReadOnlyFS(src, store, cache.ReadOnlyOptions{RetainData: pol.fn})
 		if err != nil {
 			panic(err)
 		}
-		c := &Case{ID: id, Kind: fmt.Sprintf("retain=%s/minimal=%v", pol.name, minimal)}
+		c := &Case{ID: id, Kind: fmt.Sprintf("retain=%s/minimal=%v%s", pol.name, minimal, map[bool]string{true: "/noseek", false: ""}[src.noSeek])}
 		var tree []string
 		for _, e := range es {
 			if e.isDir {
@@ -524,6 +537,9 @@ func runC10(r *Rng, n int, replay string) {
 			var a, b string
 			if (o.kind == "read" || o.kind == "seek") && isDirH[o.h] {
 				continue // byte reads of a directory handle: mem.FS's known deviation (C02), not the cache's business
+			}
+			if src.noSeek && o.kind == "seek" {
+				continue // the source's own handles cannot seek: nothing to compare
 			}
 			readsBefore, opensBefore := int64(0), int64(0)
 			if o.kind == "open" {
